@@ -111,6 +111,7 @@ def run(ctx):
     # --------------------------------------------------------------- index
     ctx.section(_index_spaces, ctx, index)
     ctx.section(_receiver_shift_agreement, ctx, index)
+    ctx.section(_locate_whole_path, ctx, index)
     ctx.section(_wrap_unconditional, ctx, index, spy, region, rfacts)
     ctx.section(_lookups, ctx, index, spy, region)
     ctx.section(_state, ctx, index)
@@ -172,6 +173,49 @@ def _cond_norm(e, fvar):
     return re.sub(r"\b{}\b".format(re.escape(fvar)), "F", norm(e))
 
 
+def _locate_whole_path(ctx, index, rule="C13.locate"):
+    """
+    "Exactly the selected location": the node that is replaced is identified by comparing its recorded `_location`
+    with the query. The comparison must be an equality of the whole lists (the query itself, or the query without
+    its last component for the enclosing function). A comparison against a *suffix* of the query (`q[-len(loc):]`,
+    `q[k:]`) also accepts a shorter location that happens to end the same way: a module-level `run` then matches
+    the query `Trainer.run`, and the first such node in the file is rewritten instead of the selected one.
+    """
+    from ..defuse import expand_aliases
+
+    scope = [index.func("cdd.shared.ast_utils.find_in_ast")] + [
+        g for g in index.nontest_funcs() if g.cls is not None and g.cls.rpartition(".")[2] == "RewriteAtQuery" and g.outer is None
+    ]
+    n_cmp = 0
+    for g in scope:
+        for c in iter_own(g.node):
+            if not (isinstance(c, ast.Compare) and len(c.ops) == 1):
+                continue
+            sides = [expand_aliases(g, c.left), expand_aliases(g, c.comparators[0])]
+            if not any("_location" in norm(x) for x in sides):
+                continue
+            n_cmp += 1
+            suffix = [sl for x in sides for sl in ast.walk(x) if isinstance(sl, ast.Slice) and sl.lower is not None]
+            eq = isinstance(c.ops[0], (ast.Eq, ast.NotEq))
+            ok = eq and not suffix
+            ctx.ob(
+                rule,
+                g,
+                c,
+                ok,
+                ""
+                if ok
+                else (
+                    "a node's `_location` is compared with a suffix of the query (`{}`): a shorter location that ends the same way "
+                    "(a module-level `run` against `Trainer.run`) also matches, and the first such node is rewritten instead of "
+                    "the selected one".format(short(c, 80))
+                    if suffix
+                    else "a node's `_location` is compared with `{}` instead of for equality".format(type(c.ops[0]).__name__)
+                ),
+            )
+    ctx.floor("comparisons of a node's _location with the query", n_cmp, 3)
+
+
 def _receiver_shift_agreement(ctx, index):
     """
     Two sites must agree on when the first parameter is a receiver that `_idx` does not count:
@@ -212,6 +256,30 @@ def _receiver_shift_agreement(ctx, index):
                 m_ = _re.search(r"([A-Za-z_][\w.]*)\.args\.args\[0\]\.arg", norm(test))
                 if m_:
                     start = (test, m_.group(1))
+    if start is None:
+        # the enumeration extracted into a module-level helper (`_annotate_arguments(fd)`), the start written as
+        # `-int(is_method)` ...: whatever the spelling, the decision is a test of the first positional parameter's
+        # name against receiver names; take the whole conjunction it sits in, local aliases expanded
+        import re as _re
+
+        helpers = [aa] + [
+            g
+            for g in index.nontest_funcs()
+            if g.mod is aa.mod and g.cls is None and g.outer is None and g is not aa and any(isinstance(x, ast.Name) and x.id == g.node.name for x in iter_own(aa.node))
+        ]
+        for g in helpers:
+            for n in iter_own(g.node):
+                if not (isinstance(n, ast.Compare) and len(n.ops) == 1 and norm(n.left).endswith("[0].arg")):
+                    continue
+                if not any(isinstance(x, ast.Constant) and x.value in ("self", "cls") for x in ast.walk(n.comparators[0])):
+                    continue
+                top = n
+                while isinstance(g.mod.parents.get(top), ast.BoolOp) and isinstance(g.mod.parents.get(top).op, ast.And):
+                    top = g.mod.parents.get(top)
+                full = expand_aliases(g, top)
+                m_ = _re.search(r"([A-Za-z_][\w.]*)\.args\.args\[0\]\.arg", norm(full))
+                if m_ and start is None:
+                    start = (full, m_.group(1))
     back = None
     # the correction may sit in visit_FunctionDef or in a method / helper of the same class or module it calls
     cands = [vf] + [
